@@ -94,6 +94,14 @@ static std::string in_child(const std::string& what, const std::string& name, co
       // a second load answers the same
       cctz::time_zone z2; const bool ok2 = cctz::load_time_zone(name, &z2);
       if (ok2 != ok || z2 != z) out += "|REPEAT-DIFFERS";
+    } else if (what == "load2") {
+      // two spellings of names loaded one after the other in ONE process: each must report the name it was asked for
+      const size_t bar = name.find('|');
+      for (const std::string& n : {name.substr(0, bar), name.substr(bar + 1)}) {
+        cctz::time_zone z;
+        const bool ok = cctz::load_time_zone(n, &z);
+        out += std::string(ok ? "1" : "0") + "|" + z.name() + "|" + fingerprint(z) + "|" + (z == cctz::utc_time_zone() ? "utc" : "other") + "#";
+      }
     } else {
       const cctz::time_zone z = cctz::local_time_zone();
       out += "1|" + z.name() + "|" + fingerprint(z) + "|" + (z == cctz::utc_time_zone() ? "utc" : "other");
@@ -158,6 +166,20 @@ static void build_fixture(const std::string& dir) {
 }
 
 static bool run_cell(const std::string& what, const std::string& name, const std::string& tzdir, const std::string& tz, const std::string& lt, std::string* why, std::string* resolved) {
+  if (what == "load2") {
+    const size_t bar = name.find('|');
+    const std::string got = in_child(what, name, tzdir, tz, lt);
+    std::vector<std::string> parts; { std::istringstream is(got); std::string t; while (std::getline(is, t, '#')) parts.push_back(t); }
+    const std::string names[2] = {name.substr(0, bar), name.substr(bar + 1)};
+    if (parts.size() < 2) { *why = "unparsable child answer: " + got; return false; }
+    for (int k = 0; k < 2; ++k) {
+      const Expect e = expect_load(names[k], tzdir);
+      *resolved = e.path;
+      std::string w;
+      if (!compare(parts[k], e, false, &w)) { *why = "load #" + std::to_string(k + 1) + " ('" + names[k] + "'): " + w + " [child answered: " + got + "]"; return false; }
+    }
+    return true;
+  }
   Expect e;
   if (what == "load") { e = expect_load(name, tzdir); *resolved = e.path; }
   else e = expect_local(tz, lt, tzdir, resolved);
@@ -182,7 +204,7 @@ static bool replay(const vf::Case& c, std::string* why) {
 static void run(const vf::Args& a, vf::Evidence& ev, vf::Reporter& rep) {
   ev.rule = "exhaustive environment matrix, each cell in a forked child: load_time_zone over TZDIR in {unset, empty, fixture, "
             "nonexistent} x 19 names (relative, absolute, file:-prefixed relative/absolute, empty, directory, unreadable, truncated, "
-            "leap-second data (fat and slim layout), ':'-prefixed, UTC, UTC0, fixed, missing, 'file:' alone, doubled slash, ./ prefix); local_time_zone "
+            "leap-second data (fat and slim layout), ':'-prefixed, UTC, UTC0, fixed, missing, 'file:' alone, doubled slash, ./ prefix) plus 7 pairs of spellings loaded one after the other in one process; local_time_zone "
             "over TZDIR (4) x TZ {unset, empty, X, :X, localtime, :localtime, invalid, ::X, :/abs} x LOCALTIME {unset, valid, "
             "missing, empty, ':'-prefixed}. Oracle: documented resolution -> path -> independent TZif reader -> expected success, "
             "name(), lookup fingerprint, equality with utc_time_zone(); default-constructed zone == UTC; a repeated load answers "
@@ -204,6 +226,10 @@ static void run(const vf::Args& a, vf::Evidence& ev, vf::Reporter& rep) {
     if (!ok) { rep.failing(c, why); rep.commit(); }
   };
   for (auto& td : tzdir_values()) for (auto& n : name_values()) do_cell("load", n, td, kUnset, kUnset);
+  for (auto& td : tzdir_values())
+    for (const std::string& pair : {std::string("Test/Valid|file:Test/Valid"), std::string("file:Test/Valid|Test/Valid"), "Test/Valid|" + g_fix + "/zoneinfo/Test/Valid",
+                                    std::string("Test/Valid|Test//Valid"), std::string("Test/Missing|file:Test/Missing"), std::string("UTC|UTC0"), std::string("Test/Valid|Test/Other")})
+      do_cell("load2", pair, td, kUnset, kUnset);
   for (auto& td : tzdir_values()) for (auto& tz : tz_values()) for (auto& lt : localtime_values()) do_cell("local", "", td, tz, lt);
   ev.exhaustive = true;
   if (a.shard == 0) ev.extra["matrix_cells"] = std::to_string(cell);
